@@ -151,6 +151,9 @@ func genRecords(r *kit.RNG, zone string, simple bool) []string {
 	if r.Chance(0.3) {
 		out = append(out, fmt.Sprintf("*.%s %d IN TXT \"wild %s\"", zone, ttl(), zone))
 	}
+	if r.Chance(0.25) {
+		out = append(out, fmt.Sprintf("*.%s %d IN A 192.0.2.%d", zone, ttl(), r.Range(1, 250)))
+	}
 	if r.Chance(0.6) {
 		out = append(out, fmt.Sprintf("alias.%s %d IN CNAME www.%s", zone, ttl(), zone))
 	}
